@@ -170,6 +170,9 @@ var templates = []Template{
 	// 18-decimal-scale reserves of very different size: share ratios are not representable in 18 decimals, so the
 	// keeper's and the pool model's computations of the tokens an all-asset join takes must round alike
 	12: {Name: "bal bar/baz big 1:1 fee0.003", Kind: "bal", Coins: [][2]string{{"bar", "1000000000000000000000000"}, {"baz", "2000000000000000000"}}, Weights: []int64{1, 1}, Fee: "0.003"},
+	// one reserve just below 10^18 beside a much larger one: the band in which truncating a share ratio to 18 decimals can
+	// move the tokens taken by one unit
+	14: {Name: "bal bar/baz mid 1:1 fee0.003", Kind: "bal", Coins: [][2]string{{"bar", "7300000000000000000011"}, {"baz", "500000000000000137"}}, Weights: []int64{1, 1}, Fee: "0.003"},
 	13: {Name: "stable bar/baz big sf1,1 fee0.001", Kind: "stable", Coins: [][2]string{{"bar", "3000000000000000000000000"}, {"baz", "3000000000000000000000000"}}, Scaling: []uint64{1, 1}, Fee: "0.001"},
 }
 
